@@ -51,7 +51,11 @@ def _collapse_invariants(
         invariants.extend(namespace[invariants_dunder])
 
     # Change the final invariants in the namespace
-    if invariants:
+    #
+    # The list is set in the namespace even if it is empty as long as one of the bases defines it.
+    # Otherwise, the class would share the list with the base through the attribute look-up,
+    # and the invariants added later to the class would leak to the base and to its other descendants.
+    if invariants or any(hasattr(base, invariants_dunder) for base in bases):
         namespace[invariants_dunder] = invariants
 
     # endregion
